@@ -9,10 +9,10 @@ Q(name, v) == [q |-> TRUE, dim |-> name, val |-> v]
 MCBaseOrd3 == <<"L", "M", "T">>
 MCBaseOrd4 == <<"L", "M", "T", "Q">>           \* "Q" = theta sorts after the ASCII letters
 
-\* quick: plain 2, 4 m, [3,4] m, 9 s, [1,4] s, 4 m2, -1/2 kg
+\* quick: plain 2, 4 m, [3,4] m, 64 s (a square and a cube), [1,4] s, 4 m2, -1/2 kg
 MCSeedsQuick == { P(<<RInt(2)>>),
                   Q(<<"L">>, <<RInt(4)>>), Q(<<"L">>, <<RInt(3), RInt(4)>>),
-                  Q(<<"T">>, <<RInt(9)>>), Q(<<"T">>, <<RInt(1), RInt(4)>>),
+                  Q(<<"T">>, <<RInt(64)>>), Q(<<"T">>, <<RInt(1), RInt(4)>>),
                   Q(<<"L", "2">>, <<RInt(4)>>),
                   Q(<<"M">>, <<Rat(-1, 2)>>) }
 \* thorough: more dimensions (velocity, force, a fractional power, temperature) and a plain vector
@@ -22,7 +22,8 @@ MCSeedsThorough == MCSeedsQuick \cup
                   Q(<<"M", "*", "L", "/", "T", "2">>, <<RInt(9)>>),
                   Q(<<"L", "_", "2">>, <<Rat(1, 4)>>),
                   Q(<<"Q">>, <<RInt(5), RInt(12)>>) }
-MCPowsQuick == {RInt(0), RInt(2), RInt(-1), Rat(1, 2), Rat(3, 2)}
-MCPowsThorough == {RInt(0), RInt(1), RInt(2), RInt(3), RInt(-1), RInt(-2), Rat(1, 2), Rat(-1, 2), Rat(3, 2)}
+\* 1/3: an exact rational exponent whose denominator is not a power of two (no binary float represents it)
+MCPowsQuick == {RInt(0), RInt(2), RInt(-1), Rat(1, 2), Rat(3, 2), Rat(1, 3)}
+MCPowsThorough == {RInt(0), RInt(1), RInt(2), RInt(3), RInt(-1), RInt(-2), Rat(1, 2), Rat(-1, 2), Rat(3, 2), Rat(1, 3), Rat(-2, 3)}
 
 =============================================================================
